@@ -95,15 +95,15 @@ Lemma scan_true : forall s i pos line col ls cur, pos < i ->
 Proof.
   induction s as [|c s IH]; intros i pos line col ls cur Hi; simpl.
   - now rewrite app_nil_r.
-  - destruct (N.eqb c 10) eqn:Ec.
+  - assert (Hne : Nat.eqb i pos = false) by (apply Nat.eqb_neq; lia). rewrite Hne.
+    destruct (N.eqb c 10) eqn:Ec.
     + simpl. now rewrite app_nil_r.
-    + assert (Hne : Nat.eqb i pos = false) by (apply Nat.eqb_neq; lia).
-      rewrite Hne. rewrite IH by lia. simpl. now rewrite <- app_assoc.
+    + rewrite IH by lia. simpl. now rewrite <- app_assoc.
 Qed.
 
-(* position inside the text, on a byte that is not a newline *)
-Lemma scan_false_char : forall s i pos line col ls cur,
-  i <= pos -> pos - i < length s -> nth_error s (pos - i) <> Some 10%N ->
+(* position on a byte of the text (a newline byte belongs to the line it ends) *)
+Lemma scan_false_in : forall s i pos line col ls cur,
+  i <= pos -> pos - i < length s ->
   line_col_scan s i pos line col ls false cur =
     (nth (count_nl (firstn (pos - i) s)) (app_hd (rev cur) (lines s)) [],
      line + count_nl (firstn (pos - i) s),
@@ -111,26 +111,28 @@ Lemma scan_false_char : forall s i pos line col ls cur,
       Z.of_nat (if Nat.eqb (count_nl (firstn (pos - i) s)) 0 then ls
                 else i + line_start s (count_nl (firstn (pos - i) s))))%Z).
 Proof.
-  induction s as [|c s IH]; intros i pos line col ls cur Hi Hlen Hnn; simpl in Hlen; [lia|].
+  induction s as [|c s IH]; intros i pos line col ls cur Hi Hlen; simpl in Hlen; [lia|].
   destruct (pos - i) as [|d] eqn:Ed.
-  - assert (i = pos) by lia. subst i. simpl in Hnn.
-    assert (Ec : N.eqb c 10 = false) by (apply N.eqb_neq; congruence).
-    simpl. rewrite Ec, Nat.eqb_refl. rewrite scan_true by lia.
-    simpl. rewrite <- app_assoc. simpl.
-    f_equal. f_equal. lia.
+  - assert (i = pos) by lia. subst i.
+    cbn [line_col_scan firstn count_nl Nat.eqb orb]. rewrite Nat.eqb_refl. cbn [orb].
+    destruct (N.eqb c 10) eqn:Ec.
+    + apply N.eqb_eq in Ec. subst c. rewrite app_hd_nl. cbn [nth].
+      f_equal. f_equal. lia.
+    + rewrite scan_true by lia. rewrite (app_hd_char (rev cur) c s Ec).
+      unfold app_hd. cbn [nth rev]. f_equal. f_equal. lia.
   - assert (Hne : Nat.eqb i pos = false) by (apply Nat.eqb_neq; lia).
     assert (Ed' : pos - S i = d) by lia.
-    simpl in Hnn. simpl line_col_scan. simpl firstn. simpl count_nl.
+    cbn [line_col_scan firstn count_nl]. rewrite Hne. cbn [orb].
     destruct (N.eqb c 10) eqn:Ec.
-    + apply N.eqb_eq in Ec. subst c. rewrite Hne.
-      rewrite IH by (rewrite ?Ed'; auto; lia). rewrite Ed'.
-      rewrite app_hd_nl. simpl rev. rewrite app_hd_nil. simpl nth.
-      rewrite line_start_cons. simpl N.eqb. cbv iota.
+    + apply N.eqb_eq in Ec. subst c.
+      rewrite IH by (rewrite ?Ed'; lia). rewrite Ed'.
+      rewrite app_hd_nl. simpl rev. rewrite app_hd_nil. cbn [nth Nat.eqb].
+      rewrite line_start_cons. cbn [N.eqb Pos.eqb].
       f_equal; [f_equal; lia|].
       destruct (Nat.eqb (count_nl (firstn d s)) 0) eqn:Ek.
-      * apply Nat.eqb_eq in Ek. rewrite Ek. simpl. rewrite line_start_0. f_equal. f_equal. lia.
-      * simpl. f_equal. f_equal. lia.
-    + rewrite Hne. rewrite IH by (rewrite ?Ed'; auto; lia). rewrite Ed'.
+      * apply Nat.eqb_eq in Ek. rewrite Ek. rewrite line_start_0. f_equal. f_equal. lia.
+      * f_equal. f_equal. lia.
+    + rewrite IH by (rewrite ?Ed'; lia). rewrite Ed'.
       rewrite (app_hd_char (rev cur) c s Ec). simpl rev.
       f_equal.
       destruct (Nat.eqb (count_nl (firstn d s)) 0) eqn:Ek; [reflexivity|].
@@ -138,95 +140,85 @@ Proof.
       rewrite line_start_cons, Ec. f_equal. f_equal. lia.
 Qed.
 
-(* position on a newline byte: the scan reports the FOLLOWING line, column -1 *)
-Lemma scan_false_nl : forall s i pos line col ls cur,
-  i <= pos -> nth_error s (pos - i) = Some 10%N ->
-  line_col_scan s i pos line col ls false cur =
-    (nth (S (count_nl (firstn (pos - i) s))) (app_hd (rev cur) (lines s)) [],
-     line + S (count_nl (firstn (pos - i) s)), (-1)%Z).
-Proof.
-  induction s as [|c s IH]; intros i pos line col ls cur Hi Hn.
-  - destruct (pos - i); discriminate.
-  - destruct (pos - i) as [|d] eqn:Ed.
-    + assert (i = pos) by lia. subst i. simpl in Hn. inversion Hn; subst c.
-      simpl line_col_scan. rewrite Nat.eqb_refl. rewrite scan_true by lia.
-      simpl firstn. simpl count_nl. rewrite app_hd_nl. cbn [rev app nth].
-      f_equal; [f_equal; [destruct (lines s); reflexivity|lia]|lia].
-    + assert (Hne : Nat.eqb i pos = false) by (apply Nat.eqb_neq; lia).
-      assert (Ed' : pos - S i = d) by lia.
-      simpl in Hn. simpl line_col_scan. simpl firstn. simpl count_nl.
-      destruct (N.eqb c 10) eqn:Ec.
-      * apply N.eqb_eq in Ec. subst c. rewrite Hne.
-        rewrite IH by (rewrite ?Ed'; auto; lia). rewrite Ed'.
-        rewrite app_hd_nl. simpl rev. rewrite app_hd_nil. simpl nth.
-        f_equal. f_equal. lia.
-      * rewrite Hne. rewrite IH by (rewrite ?Ed'; auto; lia). rewrite Ed'.
-        rewrite (app_hd_char (rev cur) c s Ec). reflexivity.
-Qed.
-
-(* position at or past the end of the text: last line, column keeps its initial value *)
+(* position at or past the end of the text: last line, column = offset of the end of the
+   text inside that line *)
 Lemma scan_false_past : forall s i pos line col ls cur,
   i <= pos -> length s <= pos - i ->
   line_col_scan s i pos line col ls false cur =
-    (last (app_hd (rev cur) (lines s)) [], line + count_nl s, col).
+    (last (app_hd (rev cur) (lines s)) [], line + count_nl s,
+     (Z.of_nat (i + length s) -
+      Z.of_nat (if Nat.eqb (count_nl s) 0 then ls else i + line_start s (count_nl s)))%Z).
 Proof.
   induction s as [|c s IH]; intros i pos line col ls cur Hi Hlen.
-  - simpl. rewrite app_nil_r. f_equal. f_equal. lia.
+  - simpl. assert (Hle : Nat.leb i pos = true) by (apply Nat.leb_le; lia). rewrite Hle.
+    rewrite app_nil_r. f_equal; [f_equal; lia|f_equal; f_equal; lia].
   - simpl in Hlen.
     assert (Hne : Nat.eqb i pos = false) by (apply Nat.eqb_neq; lia).
-    simpl line_col_scan. simpl count_nl.
+    cbn [line_col_scan count_nl length]. rewrite Hne. cbn [orb].
     destruct (N.eqb c 10) eqn:Ec.
-    + apply N.eqb_eq in Ec. subst c. rewrite Hne. rewrite IH by lia.
+    + apply N.eqb_eq in Ec. subst c. rewrite IH by lia.
       rewrite app_hd_nl. simpl rev. rewrite app_hd_nil.
-      f_equal. f_equal.
+      cbn [Nat.eqb]. rewrite line_start_cons. cbn [N.eqb Pos.eqb].
+      f_equal; [f_equal|].
       * rewrite (lines_cons_hd s). reflexivity.
       * lia.
-    + rewrite Hne. rewrite IH by lia.
-      rewrite (app_hd_char (rev cur) c s Ec). reflexivity.
+      * destruct (Nat.eqb (count_nl s) 0) eqn:Ek.
+        -- apply Nat.eqb_eq in Ek. rewrite Ek. rewrite line_start_0. lia.
+        -- lia.
+    + rewrite IH by lia.
+      rewrite (app_hd_char (rev cur) c s Ec). simpl rev.
+      f_equal.
+      destruct (Nat.eqb (count_nl s) 0) eqn:Ek; [lia|].
+      apply Nat.eqb_neq in Ek. destruct (count_nl s) as [|k] eqn:Ek'; [congruence|].
+      rewrite line_start_cons, Ec. lia.
 Qed.
 
-(* ---------- the three situations, for the whole text ---------- *)
+(* the last line ends where the text ends *)
+Lemma line_start_last : forall s,
+  line_start s (count_nl s) + length (last (lines s) []) = length s.
+Proof.
+  induction s as [|c s IH]; [reflexivity|].
+  cbn [count_nl lines length]. destruct (N.eqb c 10) eqn:Ec.
+  - rewrite line_start_cons, Ec.
+    generalize (lines_cons_hd s). destruct (lines s) as [|h t]; [discriminate|]. intros _.
+    cbn [last] in IH |- *. lia.
+  - generalize (lines_length s) (lines_cons_hd s).
+    destruct (lines s) as [|h t]; [discriminate|]. intros Hl _. cbn [hd tl].
+    destruct (count_nl s) as [|k] eqn:Ek.
+    + destruct t as [|x r]; [|simpl in Hl; lia].
+      rewrite line_start_0 in *. cbn [last length] in IH |- *. lia.
+    + rewrite line_start_cons, Ec.
+      destruct t as [|x r]; [simpl in Hl; lia|].
+      cbn [last length] in IH |- *. lia.
+Qed.
 
-Lemma get_line_col_char : forall src pos,
-  pos < length src -> nth_error src pos <> Some 10%N ->
+(* ---------- the two situations, for the whole text ---------- *)
+
+Lemma get_line_col_in : forall src pos,
+  pos < length src ->
   get_line_col src pos =
     (nth (line_of_pos src pos) (lines src) [], S (line_of_pos src pos),
      (Z.of_nat pos - Z.of_nat (line_start src (line_of_pos src pos)))%Z).
 Proof.
-  intros src pos Hlt Hnn. unfold get_line_col, line_of_pos.
-  rewrite scan_false_char by (rewrite ?Nat.sub_0_r; auto; lia).
+  intros src pos Hlt. unfold get_line_col, line_of_pos.
+  rewrite scan_false_in by (rewrite ?Nat.sub_0_r; lia).
   rewrite Nat.sub_0_r. simpl rev. rewrite app_hd_nil. f_equal.
   destruct (Nat.eqb (count_nl (firstn pos src)) 0) eqn:Ek.
   - apply Nat.eqb_eq in Ek. rewrite Ek. reflexivity.
   - reflexivity.
 Qed.
 
-Lemma get_line_col_nl : forall src pos,
-  nth_error src pos = Some 10%N ->
-  get_line_col src pos =
-    (nth (S (line_of_pos src pos)) (lines src) [], S (S (line_of_pos src pos)), (-1)%Z).
-Proof.
-  intros src pos Hn. unfold get_line_col, line_of_pos.
-  rewrite scan_false_nl by (rewrite ?Nat.sub_0_r; auto; lia).
-  rewrite Nat.sub_0_r. simpl rev. rewrite app_hd_nil. reflexivity.
-Qed.
-
 Lemma get_line_col_past : forall src pos,
   length src <= pos ->
-  get_line_col src pos = (last (lines src) [], S (count_nl src), 1%Z).
+  get_line_col src pos =
+    (last (lines src) [], S (count_nl src), Z.of_nat (length (last (lines src) []))).
 Proof.
   intros src pos Hle. unfold get_line_col.
-  rewrite scan_false_past by lia. simpl rev. rewrite app_hd_nil. reflexivity.
-Qed.
-
-Lemma nth_error_cases : forall (s : bytes) pos,
-  (pos < length s /\ nth_error s pos <> Some 10%N) \/ nth_error s pos = Some 10%N \/ length s <= pos.
-Proof.
-  intros s pos. destruct (nth_error s pos) as [c|] eqn:E.
-  - destruct (N.eq_dec c 10) as [->|Hc].
-    + right. left. reflexivity.
-    + left. split; [apply nth_error_Some; congruence|congruence].
-  - right. right. now apply nth_error_None.
+  rewrite scan_false_past by lia. simpl rev. rewrite app_hd_nil. f_equal.
+  generalize (line_start_last src).
+  destruct (Nat.eqb (count_nl src) 0) eqn:Ek.
+  - apply Nat.eqb_eq in Ek. rewrite Ek. rewrite line_start_0. lia.
+  - lia.
 Qed.
 
 (* ---------- geometry of a position inside its line ---------- *)
@@ -256,6 +248,26 @@ Proof.
         replace (S p - S (line_start s (S k))) with (p - line_start s (S k)) by lia.
         rewrite (lines_cons_hd s) in I2, I3. simpl in I2, I3. simpl nth.
         split; [lia|split; assumption].
+Qed.
+
+(* a newline byte sits just past the last byte of the line it ends *)
+Lemma pos_in_line_nl : forall s pos,
+  nth_error s pos = Some 10%N ->
+  line_start s (count_nl (firstn pos s)) <= pos /\
+  pos - line_start s (count_nl (firstn pos s)) = length (nth (count_nl (firstn pos s)) (lines s) []).
+Proof.
+  induction s as [|c s IH]; intros pos Hn; [destruct pos; discriminate|].
+  destruct pos as [|p].
+  - simpl in Hn. inversion Hn; subst c. simpl. rewrite line_start_0. split; reflexivity.
+  - simpl in Hn. simpl firstn. simpl count_nl. simpl lines.
+    specialize (IH p Hn). destruct IH as (I1 & I2).
+    destruct (N.eqb c 10) eqn:Ec.
+    + rewrite line_start_cons, Ec. simpl nth. lia.
+    + destruct (count_nl (firstn p s)) as [|k] eqn:Ek.
+      * rewrite line_start_0 in *. simpl nth. rewrite Nat.sub_0_r in *.
+        rewrite (lines_cons_hd s) in I2. simpl in I2. simpl. lia.
+      * rewrite line_start_cons, Ec.
+        rewrite (lines_cons_hd s) in I2. simpl in I2. simpl nth. lia.
 Qed.
 
 (* line_start really is the offset of the first byte of the line: the text of line k sits
@@ -311,60 +323,82 @@ Theorem line_text_consistent_proof : forall src pos text n col,
   nth_error (lines src) (n - 1) = Some text /\ 1 <= n.
 Proof.
   intros src pos text n col H.
-  destruct (nth_error_cases src pos) as [[Hlt Hnn]|[Hn|Hpast]].
-  - rewrite get_line_col_char in H by assumption. inversion H; subst; clear H.
+  destruct (Nat.lt_ge_cases pos (length src)) as [Hlt|Hpast].
+  - rewrite get_line_col_in in H by assumption. inversion H; subst; clear H.
     split; [|lia]. cbn [Nat.sub]. rewrite Nat.sub_0_r.
     apply nth_error_nth'. rewrite lines_length. unfold line_of_pos.
     generalize (count_nl_firstn_le pos src). lia.
-  - rewrite get_line_col_nl in H by assumption. inversion H; subst; clear H.
-    split; [|lia]. cbn [Nat.sub].
-    apply nth_error_nth'. rewrite lines_length. unfold line_of_pos.
-    generalize (count_nl_firstn_lt pos src Hn). lia.
   - rewrite get_line_col_past in H by assumption. inversion H; subst; clear H.
     split; [|lia]. cbn [Nat.sub]. rewrite Nat.sub_0_r.
     apply nth_error_last. apply lines_length.
 Qed.
 
+(* THE theorem: every offset inside the text or at its end is rendered exactly *)
 Theorem pos_exact_proof : forall src pos text n col,
-  pos < length src -> nth_error src pos <> Some 10%N ->
+  pos <= length src ->
   get_line_col src pos = (text, n, col) ->
   n = S (line_of_pos src pos) /\
   nth_error (lines src) (line_of_pos src pos) = Some text /\
   line_start src (line_of_pos src pos) <= pos /\
   col = Z.of_nat (col_of_pos src pos) /\
-  (0 <= col < Z.of_nat (length text))%Z /\
-  nth_error text (Z.to_nat col) = nth_error src pos.
+  (0 <= col <= Z.of_nat (length text))%Z /\
+  (col = Z.of_nat (length text) <-> (nth_error src pos = Some 10%N \/ pos = length src)) /\
+  ((col < Z.of_nat (length text))%Z -> nth_error text (Z.to_nat col) = nth_error src pos).
 Proof.
-  intros src pos text n col Hlt Hnn H.
+  intros src pos text n col Hle H.
   destruct (line_text_consistent_proof _ _ _ _ _ H) as [Hline _].
-  rewrite get_line_col_char in H by assumption. inversion H; subst; clear H.
-  cbn [Nat.sub] in Hline. rewrite Nat.sub_0_r in Hline.
-  destruct (pos_in_line src pos Hlt Hnn) as (I1 & I2 & I3).
-  fold (line_of_pos src pos) in I1, I2, I3.
-  unfold col_of_pos.
-  split; [reflexivity|split; [assumption|split; [assumption|split; [lia|split; [lia|]]]]].
-  replace (Z.to_nat (Z.of_nat pos - Z.of_nat (line_start src (line_of_pos src pos))))
-    with (pos - line_start src (line_of_pos src pos)) by lia.
-  assumption.
+  destruct (Nat.lt_ge_cases pos (length src)) as [Hlt|Hpast].
+  - rewrite get_line_col_in in H by assumption.
+    injection H as Htext Hn Hcol. subst n col.
+    cbn [Nat.sub] in Hline. rewrite Nat.sub_0_r in Hline.
+    unfold col_of_pos.
+    destruct (nth_error src pos) as [c|] eqn:Ec; [|apply nth_error_None in Ec; lia].
+    destruct (N.eq_dec c 10) as [->|Hc].
+    + destruct (pos_in_line_nl src pos Ec) as (I1 & I2).
+      fold (line_of_pos src pos) in I1, I2. rewrite Htext in I2.
+      split; [reflexivity|split; [exact Hline|split; [exact I1|split; [lia|split; [lia|split]]]]].
+      * split; [intros _; left; reflexivity|intros _; lia].
+      * intros Hl. lia.
+    + assert (Hnn : nth_error src pos <> Some 10%N) by (rewrite Ec; congruence).
+      destruct (pos_in_line src pos Hlt Hnn) as (I1 & I2 & I3).
+      fold (line_of_pos src pos) in I1, I2, I3. rewrite Htext in I2, I3.
+      split; [reflexivity|split; [exact Hline|split; [exact I1|split; [lia|split; [lia|split]]]]].
+      * split; [intros Hl; lia|intros [E|E]; [congruence|lia]].
+      * intros _.
+        replace (Z.to_nat (Z.of_nat pos - Z.of_nat (line_start src (line_of_pos src pos))))
+          with (pos - line_start src (line_of_pos src pos)) by lia.
+        rewrite I3. exact Ec.
+  - assert (pos = length src) by lia. subst pos.
+    rewrite get_line_col_past in H by lia.
+    injection H as Htext Hn Hcol. subst n col. rewrite Htext in *.
+    assert (Hk : line_of_pos src (length src) = count_nl src).
+    { unfold line_of_pos. now rewrite firstn_all. }
+    cbn [Nat.sub] in Hline. rewrite Nat.sub_0_r in Hline.
+    generalize (line_start_last src). intros Hls. rewrite Htext in Hls.
+    unfold col_of_pos. rewrite Hk.
+    split; [reflexivity|split; [exact Hline|split; [lia|split; [lia|split; [lia|split]]]]].
+    + split; [intros _; right; reflexivity|intros _; reflexivity].
+    + intros Hl. lia.
 Qed.
 
 Theorem pos_on_newline_proof : forall src pos text n col,
   nth_error src pos = Some 10%N ->
   get_line_col src pos = (text, n, col) ->
-  n = S (S (line_of_pos src pos)) /\
-  nth_error (lines src) (S (line_of_pos src pos)) = Some text /\
-  col = (-1)%Z.
+  n = S (line_of_pos src pos) /\
+  nth_error (lines src) (line_of_pos src pos) = Some text /\
+  col = Z.of_nat (length text).
 Proof.
   intros src pos text n col Hn H.
-  destruct (line_text_consistent_proof _ _ _ _ _ H) as [Hline _].
-  rewrite get_line_col_nl in H by assumption. inversion H; subst; clear H.
-  cbn [Nat.sub] in Hline. auto.
+  assert (Hlt : pos < length src) by (apply nth_error_Some; congruence).
+  destruct (pos_exact_proof src pos text n col ltac:(lia) H) as (E1 & E2 & E3 & E4 & E5 & E6 & E7).
+  split; [exact E1|split; [exact E2|]]. apply E6. left. exact Hn.
 Qed.
 
 Theorem pos_past_end_proof : forall src pos text n col,
   length src <= pos ->
   get_line_col src pos = (text, n, col) ->
-  n = length (lines src) /\ nth_error (lines src) (n - 1) = Some text /\ col = 1%Z.
+  n = length (lines src) /\ nth_error (lines src) (n - 1) = Some text /\
+  col = Z.of_nat (length text).
 Proof.
   intros src pos text n col Hle H.
   destruct (line_text_consistent_proof _ _ _ _ _ H) as [Hline _].
